@@ -8,142 +8,81 @@ Open Scope nat_scope.
 Scheme mk_mut := Induction for mk Sort Prop
   with mlist_mut := Induction for mlist Sort Prop.
 
-(* ------------------------------------------------------------------ evaluation algebra *)
-Lemma eval_groups_acc env l acc :
-  has_or l = false -> eval_groups env acc l = acc && eval_groups env true l.
-Proof.
-  revert acc. induction l as [m | m c r IH]; intros acc H; cbn in *.
-  - reflexivity.
-  - destruct c; [| discriminate].
-    rewrite (IH (acc && eval_mk env m) H), (IH (eval_mk env m) H).
-    now rewrite andb_assoc.
-Qed.
-
-Lemma eval_groups_mapp env l1 l2 acc :
-  has_or l1 = false ->
-  eval_groups env acc (mapp l1 CAnd l2) = eval_groups env (eval_groups env acc l1) l2.
-Proof.
-  revert acc. induction l1 as [m | m c r IH]; intros acc H; cbn in *.
-  - reflexivity.
-  - destruct c; [| discriminate]. now apply IH.
-Qed.
-
-Lemma has_or_wrap l : has_or (wrap l) = false.
-Proof. unfold wrap. destruct (has_or l) eqn:E; [reflexivity | exact E]. Qed.
-
-Lemma eval_wrap env l : eval env (wrap l) = eval env l.
-Proof. unfold wrap, eval. destruct (has_or l); cbn; reflexivity. Qed.
-
 Combined Scheme mk_mlist_mut from mk_mut, mlist_mut.
 
-Lemma eval_unwrap_aux env :
-  (forall m : mk, match m with MGroup l => eval env (unwrap l) = eval env l | MAtom _ => True end)
-  /\ (forall l : mlist, eval env (unwrap l) = eval env l).
+(* decidable equality of markers *)
+Lemma mlist_eqb_eq_aux :
+  (forall a : mk, forall b, mk_eqb a b = true -> a = b)
+  /\ (forall a : mlist, forall b, mlist_eqb a b = true -> a = b).
 Proof.
+  assert (Op : forall u v, operand_eqb u v = true -> u = v)
+    by (intros [u|u] [v|v]; cbn; intros Hx; try discriminate; apply String.eqb_eq in Hx; now subst).
   apply mk_mlist_mut.
-  - intros a. exact I.
-  - intros l H. exact H.
-  - intros m H. destruct m as [a | l'].
-    + reflexivity.
-    + cbn [unwrap]. rewrite H. unfold eval. cbn. reflexivity.
-  - intros m _ c r _. reflexivity.
+  - intros a0 [b0|b0]; cbn; intros H0; [|discriminate].
+    destruct a0 as [l o r], b0 as [l' o' r']. unfold atom_eqb in H0. cbn in H0.
+    apply andb_prop in H0 as [H0 H3]. apply andb_prop in H0 as [H1 H2].
+    apply Op in H1, H3. apply String.eqb_eq in H2. now subst.
+  - intros l IH [b0|b0]; cbn; intros H0; [discriminate|]. apply IH in H0. now subst.
+  - intros m0 IH [b0|b0 c1 r1]; cbn; intros H0; [|discriminate]. apply IH in H0. now subst.
+  - intros m0 IHm c1 r1 IHr [b0|b0 d1 s1]; cbn; intros H0; [discriminate|].
+    apply andb_prop in H0 as [H0 H3]. apply andb_prop in H0 as [H1 H2].
+    apply IHm in H1. apply IHr in H3. destruct c1, d1; try discriminate; now subst.
 Qed.
-Lemma eval_unwrap env l : eval env (unwrap l) = eval env l.
-Proof. apply eval_unwrap_aux. Qed.
+Lemma mlist_eqb_eq a b : mlist_eqb a b = true -> a = b.
+Proof. apply mlist_eqb_eq_aux. Qed.
 
-(* the declared composition of two markers means their conjunction, whatever their shape *)
-Lemma conj_is_conjunction env x y l :
-  conj (Some x) (Some y) = Some l -> eval env l = eval env x && eval env y.
+(* ------------------------------------------------------------------ evaluation algebra *)
+Lemma eval_groups_and_list env acc m r :
+  eval_groups env acc (and_list m r) = acc && forallb (eval_mk env) (m :: r).
 Proof.
-  cbn. intros H. injection H as <-. unfold eval.
-  rewrite eval_groups_mapp by apply has_or_wrap.
-  rewrite eval_groups_acc by apply has_or_wrap.
-  fold (eval env (wrap (unwrap x))). fold (eval env (wrap (unwrap y))).
-  now rewrite !eval_wrap, !eval_unwrap.
+  revert acc m. induction r as [|m2 r IH]; intros acc m; cbn [and_list eval_groups forallb].
+  - now rewrite andb_true_r.
+  - rewrite IH. cbn [forallb]. symmetry. apply andb_assoc.
 Qed.
 
 Definition extra_is (env : atom -> bool) (e : string) : bool :=
   env (mkAtom (OVar "extra") "==" (OLit (canon_name e))).
-
-(* full meaning of what [combine_decl] attaches to a requirement of an extras_require entry:
-   (own marker) and (environment marker of the key) and (extra == key's extra) *)
 Definition opt_eval (env : atom -> bool) (o : option mlist) : bool :=
   match o with None => true | Some l => eval env l end.
 
-Lemma conj_opt env a b : opt_eval env (conj a b) = opt_eval env a && opt_eval env b.
+(* the declared marker of a requirement under an extras_require key MEANS
+   (own marker) and (environment marker of the key) and (extra == key's extra), whatever their shape *)
+Lemma declared_marker_is_conjunction env own envm x :
+  opt_eval env (declared_marker own envm x)
+  = opt_eval env own && opt_eval env envm && (String.eqb x "" || extra_is env x).
 Proof.
-  destruct a as [x|], b as [y|]; cbn [opt_eval].
-  - destruct (conj (Some x) (Some y)) eqn:E; [| discriminate]. cbn. eapply conj_is_conjunction; eauto.
-  - cbn. now rewrite andb_true_r.
-  - reflexivity.
-  - reflexivity.
-Qed.
-
-Lemma declared_marker_is_conjunction env own envm e :
-  opt_eval env (conj (conj own envm) (Some (extra_atom e)))
-  = opt_eval env own && opt_eval env envm && extra_is env e.
-Proof.
-  rewrite !conj_opt. cbn [opt_eval]. unfold extra_atom, eval, extra_is. cbn. reflexivity.
+  unfold declared_marker, eval.
+  destruct own as [o|], envm as [e|]; destruct (String.eqb x ""); cbn [group_of List.app opt_eval orb];
+    unfold eval; try rewrite eval_groups_and_list; cbn [forallb eval_mk andb extra_atom]; unfold extra_is;
+    rewrite ?andb_true_r, ?andb_assoc; reflexivity.
 Qed.
 
 Example declared_marker_nontrivial :
   exists own envm, has_or own = true /\ has_or envm = true
-    /\ conj (conj (Some own) (Some envm)) (Some (extra_atom "dev")) <> None.
+    /\ declared_marker (Some own) (Some envm) "dev" <> None.
 Proof.
   exists (MCons (MAtom (mkAtom (OVar "os_name") "==" (OLit "nt"))) COr (MOne (MAtom (mkAtom (OVar "os_name") "==" (OLit "posix"))))).
   exists (MCons (MAtom (mkAtom (OVar "python_version") "<" (OLit "3"))) COr (MOne (MAtom (mkAtom (OVar "python_version") ">" (OLit "4"))))).
   repeat split; cbn; discriminate.
 Qed.
 
-(* ------------------------------------------------------------------ refutations (replayed on /repo) *)
+(* ------------------------------------------------------------------ the former refutation witnesses (fixed findings) *)
 Definition d_or : decl :=
   mkDecl (Some "foo") (Some (VGood (mkV 0%N [1%N; 0%N] None None None [])))
          None [("dev", SMany ["d; os_name == ""nt"" or os_name == ""posix"""])] false None.
-Definition env_nt_no_extra (a : atom) : bool :=
-  match a_l a, a_r a with
-  | OVar "os_name", OLit "nt" => true
-  | _, _ => false
-  end.
-
-Lemma or_marker_refuted :
-  exists d rc rd lc ld env,
-    harvest d = HOk (mkMeta (Some "foo") (Some (mkV 0%N [1%N; 0%N] None None None [])) [rc])
-    /\ meta_of_res d = HOk (mkMeta (Some "foo") (Some (mkV 0%N [1%N; 0%N] None None None [])) [rd])
-    /\ rc <> rd
-    /\ parse_req_text rc = ROk (mkReq "d" (Some lc))
-    /\ parse_req_text rd = ROk (mkReq "d" (Some ld))
-    /\ extra_is env "dev" = false
-    /\ eval env lc = true      (* the code's requirement is active WITHOUT the extra *)
-    /\ eval env ld = false.
-Proof.
-  exists d_or.
-  exists "d; os_name == ""nt"" or os_name == ""posix"" and extra == ""dev""".
-  exists "d; (os_name == ""nt"" or os_name == ""posix"") and extra == ""dev""".
-  eexists. eexists. exists env_nt_no_extra.
-  split; [vm_compute; reflexivity|].
-  split; [vm_compute; reflexivity|].
-  split; [discriminate|].
-  split; [vm_compute; reflexivity|].
-  split; [vm_compute; reflexivity|].
-  split; vm_compute; auto.
-Qed.
-
 Definition d_colon : decl :=
   mkDecl (Some "foo") (Some (VGood (mkV 0%N [1%N; 0%N] None None None [])))
          None [("tst:sys_platform=='linux'", SMany ["f"])] false None.
 
-Lemma extra_colon_key_refuted :
-  exists d rc rd,
-    harvest d = HOk (mkMeta (Some "foo") (Some (mkV 0%N [1%N; 0%N] None None None [])) [rc])
-    /\ meta_of_res d = HOk (mkMeta (Some "foo") (Some (mkV 0%N [1%N; 0%N] None None None [])) [rd])
-    /\ rc = "f; extra == ""tst:sys-platform=='linux'"""
-    /\ rd = "f; sys_platform == ""linux"" and extra == ""tst""".
-Proof.
-  exists d_colon. eexists. eexists.
-  split; [vm_compute; reflexivity|].
-  split; [vm_compute; reflexivity|].
-  split; reflexivity.
-Qed.
+(* C12-or-marker-precedence and C12-extra-colon-key: the harvest now IS the declaration *)
+Example former_witnesses_fixed :
+  harvest d_or = HOk (mkMeta (Some "foo") (Some (mkV 0%N [1%N; 0%N] None None None []))
+                        ["d; (os_name == ""nt"" or os_name == ""posix"") and extra == ""dev"""])
+  /\ meta_of_res d_or = harvest d_or
+  /\ harvest d_colon = HOk (mkMeta (Some "foo") (Some (mkV 0%N [1%N; 0%N] None None None []))
+                           ["f; sys_platform == ""linux"" and extra == ""tst"""])
+  /\ meta_of_res d_colon = harvest d_colon.
+Proof. repeat split; vm_compute; reflexivity. Qed.
 
 (* ------------------------------------------------------------------ routing *)
 Lemma route_independent_partial lay k1 k2 :
